@@ -128,6 +128,12 @@ def run_case(ctx, g, rng):
         uris += [f"http://zz.cur/{rng.randint(0, 6)}/" + rng.choice(["1", "2", "b1"]) for _ in range(2)]
     if rng.random() < 0.04 or g == 0:  # case 0 always carries the listed known finding's trigger
         uris.append("https://github.com/o/r/issues/" + rng.choice(["1", "22"]))
+    if rng.random() < 0.06:
+        # near misses of the special case behind the known finding (https://github.com ... issues): another scheme or
+        # letter case, another host, no "issues" - none of them is skipped by the code as it stands, all must be discovered
+        uris.append(rng.choice(["http://github.com/o/r/issues/", "HTTPS://github.com/o/r/issues/", "https://github.org/o/r/issues/",
+                                "https://github.com/o/r/pulls/", "git://github.com/o/r/issues/"]) + rng.choice(["1", "22"]))
+        S.counters["wl:near-misses-of-the-github-special-case"] += 1
     if uris and rng.random() < 0.4:
         uris += rng.sample(uris, k=min(2, len(uris)))
     delims = rng.choice(DELIMS)
